@@ -1,8 +1,46 @@
+import Oracle.C01
 import Oracle.C02
+import Oracle.C03
+import Oracle.C04
+import Oracle.C05
+import Oracle.C06
+import Oracle.C07
+import Oracle.C08
+import Oracle.C09
+import Oracle.C10
+import Oracle.C11
+import Oracle.C12
+import Oracle.C13
+import Oracle.C14
+import Oracle.C15
+import Oracle.C16
+import Oracle.C17
+import Oracle.C18
+import Oracle.C19
+import Oracle.C20
 
 def main (args : List String) : IO UInt32 := do
   match args with
+  | "c01" :: rest => Oracle.C01.main rest
   | "c02" :: rest => Oracle.C02.main rest
+  | "c03" :: rest => Oracle.C03.main rest
+  | "c04" :: rest => Oracle.C04.main rest
+  | "c05" :: rest => Oracle.C05.main rest
+  | "c06" :: rest => Oracle.C06.main rest
+  | "c07" :: rest => Oracle.C07.main rest
+  | "c08" :: rest => Oracle.C08.main rest
+  | "c09" :: rest => Oracle.C09.main rest
+  | "c10" :: rest => Oracle.C10.main rest
+  | "c11" :: rest => Oracle.C11.main rest
+  | "c12" :: rest => Oracle.C12.main rest
+  | "c13" :: rest => Oracle.C13.main rest
+  | "c14" :: rest => Oracle.C14.main rest
+  | "c15" :: rest => Oracle.C15.main rest
+  | "c16" :: rest => Oracle.C16.main rest
+  | "c17" :: rest => Oracle.C17.main rest
+  | "c18" :: rest => Oracle.C18.main rest
+  | "c19" :: rest => Oracle.C19.main rest
+  | "c20" :: rest => Oracle.C20.main rest
   | _ => do
-    IO.eprintln "usage: oracle <mode> [args]   (modes: c02 …)"
+    IO.eprintln "usage: oracle c01..c20 [args]  (reads protocol lines on stdin)"
     return 2
